@@ -13,7 +13,7 @@ use vcore::run::{Run, guarded, machinery_failure};
 use vcore::srv::*;
 
 const MODS: [&str; 5] = ["Lib", "Main", "Other", "Moved", "NeverExisted"];
-const TEXTS: [(&str, &str); 7] = [
+const TEXTS: [(&str, &str); 8] = [
   ("lib_ok", include_str!("../../../corpus/c11/lib_ok.sam")),
   ("lib_changed", include_str!("../../../corpus/c11/lib_changed.sam")),
   ("main_ok", include_str!("../../../corpus/c11/main_ok.sam")),
@@ -21,6 +21,8 @@ const TEXTS: [(&str, &str); 7] = [
   ("main_syntax", include_str!("../../../corpus/c11/main_syntax.sam")),
   ("other_ok", include_str!("../../../corpus/c11/other_ok.sam")),
   ("empty", ""),
+  // nothing declared, but comments with more than 15 bytes each (a file that is commented out)
+  ("comment_only", "// this whole file is commented out for now\n/* a block comment longer than fifteen bytes */\n/** a doc comment longer than fifteen bytes */\n"),
 ];
 const INITS: [&[(u8, u8)]; 5] = [
   &[],
